@@ -118,6 +118,14 @@ theorem c03_repair_restores_invariant :
     (cycle { coerce := some Wit.driftLiteralRange.ctx } Wit.driftLiteralRange 100 (Wit.init Wit.driftLiteralRange)).2
       = some (.fault .Overflow .narrow) := by decide +kernel
 
+/-- **Counterexample (initialisers of frame-local declarations are never checked), stage S4.**
+`VAR lt0 : INT := TRUE;` in `FUNCTION F0 : INT` is accepted; `F0 := lt0` returns the BOOL and
+`d := F0(..)` stores it: after the first cycle `d : INT` holds `Bool(true)`. -/
+theorem c03_counterexample_local_init_family :
+    Wit.localInitFamily.accepted = true ∧
+    Wit.firstXCycle Wit.localInitFamily = (none, [("d", .b true)], 0) ∧
+    (Val.b true).hasTy (.int .int) = false := by decide +kernel
+
 /-- Stage S3, non-vacuity: after the first cycle of the S3 sample (inside the guard) every element
 of `ar` carries the tag INT and the fields of `sv` the tags DINT / BOOL. -/
 example : Strict Wit.s3Sample = true ∧
